@@ -547,7 +547,7 @@ def means(ctx, f):
     prog = ctx.prog
     R = "R-C13-mean"
     loop = _main_loop(ctx, f, R)
-    block = [n for n in loop.body if isinstance(n, ast.If) and set(_names_in_test(n.test, "cmd") or []) == BLOCK_CMDS]
+    block = [n for n in loop.body if isinstance(n, ast.If) and set(_names_in_test(n.test, "cmd") or []) >= {"FN_DIFF0", "FN_QLPC"}]
     ctx.need(len(block) == 1, R, "block-command branch not found")
     stmts = block[0].body
     rd_if = [s for s in stmts if isinstance(s, ast.If) and astq.text(s.test) == "nmean"]
@@ -610,7 +610,9 @@ def uniform_post(ctx, f):
     prog = ctx.prog
     R = "R-C13-uniform-post"
     loop = _main_loop(ctx, f, R)
-    block = [n for n in loop.body if isinstance(n, ast.If) and set(_names_in_test(n.test, "cmd") or []) == BLOCK_CMDS][0]
+    blocks = [n for n in loop.body if isinstance(n, ast.If) and set(_names_in_test(n.test, "cmd") or []) >= {"FN_DIFF0", "FN_QLPC"}]
+    ctx.need(len(blocks) == 1, R, "block-command branch not found")
+    block = blocks[0]
     cfg = CFG(f.node)
     cd = cfg.control_deps()
     nb = cfg.node(block)
